@@ -544,6 +544,17 @@ func (w *srvWorld) firstCause() int {
 	return first
 }
 
+// firstDefiniteCause ignores events that may or may not end the connection.
+func (w *srvWorld) firstDefiniteCause() int {
+	first := 1 << 30
+	for _, c := range w.causes {
+		if !c.Optional && c.Begin < first {
+			first = c.Begin
+		}
+	}
+	return first
+}
+
 // connEnded is the sequence number after which the connection has certainly
 // ended (an explicit Stop returned, or WaitStatus returned).
 func (w *srvWorld) connEnded() int {
